@@ -296,7 +296,7 @@ def run_property(prop, tier, seed):
         "seed": seed,
         "level": "other",
         "coverage": {
-            "explanation": getattr(mod, "EXPLANATION", "static rules over rustc MIR of /repo's current tree"),
+            "explanation": getattr(mod, "EXPLANATION", "static rules over rustc MIR of /repo's current tree") + __import__("deps").explain(prop),
             "obligations": len(ctx.results),
             "discharged": len(oks),
             "evaluations": len(ctx.results),
